@@ -69,8 +69,8 @@ def tx_csv_part(ctx):
     from units.qt import str_match_to_if
     tc = Src(ctx, 'portfolio/io/tx_csv.rs').cut_tests().standard()
     tc.only(['fn parse_csv_action', 'fn parse_csv_superficial_loss', 'fn csvtx_from_csv_values', 'struct TxCsvParseOptions', 'fn parse_tx_csv',
-             'struct PlainCsvTable', 'fn txs_to_csv_table'],
-            why='write_txs_to_csv (csv crate writer; "mostly obsolete") is not extracted')
+             'struct PlainCsvTable', 'fn txs_to_csv_table', 'fn write_txs_to_csv'],
+            why='the test helpers are not extracted')
     tc.sub(r'(?ms)^(pub )?use [^;]*;\n', '', 'select')
     tc.replace("crate::util::date::DynDateFormat", "crate::util::date_fmt::DynDateFormat", 'R1')
     # parse_csv_action
@@ -109,6 +109,11 @@ def tx_csv_part(ctx):
            'crate::csvx::with_mark(v.superficial_loss.to_string_min_precision(2), v.force)', 'H', required=True)
     tc.replace(".map(|v| v.name().to_string())", ".map(|v| crate::csvx::to_string(v.name()))", 'R26')
     tc.replace("_ => panic!(\"Invalid col {}\", col),", "_ => panic!(\"Invalid col\"),", 'R3', required=False)
+    # write_txs_to_csv: the csv crate writer is a stand-in (ghost list of records)
+    tc.sub(r'(?s)let mut csv_w = (?:crate::)?csv::WriterBuilder::new\(\)\.has_headers\(true\)\.from_writer\(writer\);', 'let mut csv_w = crate::csvw::writer_from_dyn(writer);', 'H', required=True)
+    tc.replace('writer: &mut dyn std::io::Write,', 'writer: &mut crate::csvw::Sink,', 'R1')
+    tc.replace(') -> Result<(), csv::Error> {', ') -> Result<(), crate::csvw::CsvErr> {', 'R1', required=False)
+    tc.replace(') -> Result<(), crate::csv::Error> {', ') -> Result<(), crate::csvw::CsvErr> {', 'R1', required=False)
     # the export order table of csv_common.rs (dropped from the shared bk part) is needed here: same text, second inherent impl
     cc = Src(ctx, 'portfolio/csv_common.rs').cut_tests().standard()
     m = re.search(r"(?ms)^    pub fn export_order_non_deprecated_cols\(\).*?^    \}\n", cc.s)
@@ -125,7 +130,7 @@ def tx_csv_part(ctx):
 def with_csv_stubs(head):
     """the csv / str stand-ins of tx_csv.rs go in front of the marker, next to the other shims"""
     d = os.path.join(os.path.dirname(os.path.dirname(os.path.abspath(__file__))), 'shim')
-    return head.replace(MARKER, '') + open(os.path.join(d, 'csv_stubs.rs')).read() + open(os.path.join(d, 'office_stubs.rs')).read() + MARKER
+    return head.replace(MARKER, '') + open(os.path.join(d, 'csv_stubs.rs')).read() + open(os.path.join(d, 'office_stubs.rs')).read() + open(os.path.join(d, 'csvw_stubs.rs')).read() + MARKER
 
 
 APP_USE = ("use std::collections::HashMap;\nuse vstd::std_specs::iter::IteratorSpec;\nuse crate::time::Date;\nuse crate::fx::io::RateLoader;\n"
@@ -197,7 +202,7 @@ def OVERLAY_SPLIT(op):
 
 
 TAG_RULES = [
-    (r'txs_to_csv_table|export_order_non_deprecated_cols|lemma_table_reads_back|lemma_omitted_column|lemma_header_member|lemma_export_distinct|lemma_val_of_col|lemma_cell_texts|lemma_field_back|lemma_needed|lemma_back_|theorem_written_row_reads_back|lemma_non_optional_in_header', ['C10', 'C18']),
+    (r'txs_to_csv_table|write_txs_to_csv|export_order_non_deprecated_cols|lemma_table_reads_back|lemma_omitted_column|lemma_header_member|lemma_export_distinct|lemma_val_of_col|lemma_cell_texts|lemma_field_back|lemma_needed|lemma_back_|theorem_written_row_reads_back|lemma_non_optional_in_header', ['C10', 'C18']),
     (r'tx_csv::', ['C07']),
     (r'input_parse::', ['C16']),
     (r'approot::', ['C07', 'C08', 'C16', 'C04']),
